@@ -396,3 +396,9 @@ impl<'a> PackHeaderRef<'a> {
         Ok(writer.into_inner())
     }
 }
+
+#[cfg(rustic_core_verif)]
+#[allow(missing_docs, unused_imports, dead_code, clippy::all, clippy::pedantic, clippy::nursery)]
+pub mod verif_hooks {
+    use super::*;
+}
